@@ -15,11 +15,13 @@ from vf.gen import composite
 ID = "C06"
 RULE = ("case = 1-3 generated code files (1-5 records each around 0 / 64 KiB / 1 MiB / 16 MiB / 2 GiB, gaps, "
         "adjacency, overlaps, lengths 0 .. several lines .. 64 KiB, granularity 1/2/4, CPU ids of all default-format "
-        "families, entry record, (offset) suffix) x format (-F Moto|Intel|Intel16|Intel32|MOS|Tek|Atmel|C or the "
-        "default chosen per CPU family) x options (-r, -R, -a, -l 2..254, -M, +5, -i, -m 0..3, -e, -avrlen, "
-        "-segment, -f, -cformat); non-trivial = a group crossing a 64 KiB / 1 MiB / 16 MiB boundary of the "
-        "format's address field, or more than one data line per group, or a record clipped by the window, or a "
-        "non-default option; distinct by (format, granularity, boundary classes, option vector, line class)")
+        "families, several segments, entry record, (offset) suffix) or one of the 201 golden programs assembled by the "
+        "asl under test (12 % of the cases) x format (-F Moto|Intel|Intel16|Intel32|MOS|Tek|Atmel|C or the default "
+        "chosen per CPU family) x options (-r, -R, -a, -l 2..254, -M, +5, -i, -m 0..3, -e, -avrlen, -segment, -f, "
+        "-cformat; on the command line or in P2HEXCMD; target with or without extension; 'p2hex name' form); "
+        "non-trivial = a group crossing a 64 KiB / 1 MiB / 16 MiB boundary of the format's address field, or more "
+        "than one data line per group, or a record clipped by the window, or a non-default option; distinct by "
+        "(format, granularity, boundary classes, option vector, line class)")
 ASSUMPTIONS = [
     "code-file words are little endian (doc/file-formats.md); -m 0 keeps that order, -m 1 stores high byte first, "
     "-m 2 / -m 3 keep the low / high byte of every word at the word address (doc/utility-programs.md)",
@@ -49,10 +51,18 @@ ASSUMPTIONS = [
     "all final addresses stay below 2^32 (no wrap-around); cases that would wrap are discarded and counted",
     "overlap warnings (C05) and the undocumented options -s, -k, -d, -q are not part of this check",
     "size report on stdout '(<n> Bytes)' must state the number of code bytes written for each source file",
+    "second witnesses (skipped and not counted when the tool is missing): GNU objdump -b srec / -b ihex must read the "
+    "same bytes and start address as vf.hexfmt for byte-granular S-record output and for Intel output with -i 0; the C "
+    "output must compile with gcc -std=c99 -pedantic-errors or g++ -std=c++11 -pedantic-errors and the compiled "
+    "descriptor table must hold the parsed blocks",
+    "corpus cases: the code file is the one asl wrote, read by the independent reader vf.pfile (strict); records of "
+    "one CPU id are selected with -f when the program holds several",
+    "cases whose selected records differ in granularity, or whose files carry different entry addresses without -e, "
+    "are discarded (the manual defines neither)",
 ]
 
 FORMATS = ["Moto", "Intel", "Intel16", "Intel32", "MOS", "Tek", "Atmel", "C"]
-SEGN = {1: "CODE", 2: "DATA", 4: "XDATA", 7: "IO"}
+SEGN = {1: "CODE", 2: "DATA", 3: "IDATA", 4: "XDATA", 5: "YDATA", 6: "BITDATA", 7: "IO", 8: "REG", 9: "ROMDATA"}
 SEGID = {v: k for k, v in SEGN.items()}
 
 # default format per CPU family, from the manual's sentence and the family table of doc/file-formats.md
@@ -204,7 +214,7 @@ def strategy_(d, tier):
             anchors.append((ain, k))
     in_limit = 0xffffffff if overflow_ok else min(0xffffffff, lim - R + S0)
 
-    segs = d.weighted([(5, (1,)), (2, (1, 2)), (1, (1, 2, 4))])
+    segs = d.weighted([(10, (1,)), (4, (1, 2)), (2, (1, 2, 4)), (1, (1, 7)), (1, (1, 3, 9)), (1, (2, 5, 6, 8))])
     sel_seg = 1
     if len(segs) > 1 and opt(d, 0.5):
         sel_seg = d.choice(segs)
@@ -225,27 +235,76 @@ def strategy_(d, tier):
                 anc.append((max(0, a - sub), "at"))
             else:
                 anc.append((max(0, a - sub), k))
+        have_entry = any(r["kind"] == "entry" for f_ in files for r in f_["recs"])
         f = hexgen.gen_file(d, "f%d" % i, gran=gran, cpus=cpus, segs=segs, anchors=anc, line=line_units,
                             counter=counter, entry_max=emax, offset=off, big_ok=thorough and opt(d, 0.2),
+                            entry_p=0.0 if have_entry else 0.3,
                             first_at=(max(0, S0 - sub) if (rel and i == 0 and opt(d, 0.7)) else None),
                             limit=max(0, in_limit - sub))
         files.append(f)
 
-    # window
-    if opt(d, 0.4):
-        addrs = [(r["addr"] + (f["offset"] or 0), r["n"]) for f in files for r in f["recs"]
-                 if r["kind"] == "data" and r["seg"] == sel_seg and r["n"] > 0]
-        if addrs:
-            a0, n0 = d.choice(addrs)
-            a1, n1 = d.choice(addrs)
-            lo = a0 + d.int(-4, n0 - 1 if opt(d, 0.6) else 4)
-            hi = a1 + d.int(0, n1 + 4)
-            if rel and opt(d, 0.5):
-                lo = S0
-            lo = max(0, min(lo, 0xffffffff))
-            hi = max(lo, min(hi, 0xffffffff))
-            mode = d.weighted([(3, "ee"), (2, "ae"), (2, "ea"), (1, "aa")])
-            o["r"] = [lo if mode[0] == "e" else None, hi if mode[1] == "e" else None]
+    # window and the options that are independent of the files
+    addrs = [(r["addr"] + (f["offset"] or 0), r["n"]) for f in files for r in f["recs"]
+             if r["kind"] == "data" and r["seg"] == sel_seg and r["n"] > 0]
+    if opt(d, 0.25):
+        allc = sorted({r["cpu"] for f in files for r in f["recs"] if r["kind"] == "data"})
+        pick = d.subset(allc, 0.6) or [allc[0]]
+        if opt(d, 0.2):
+            pick.append(0x7f)
+        o["f"] = pick
+    common_opts(d, o, eff, gran, addrs, S0 if rel else None)
+    return dict(files=files, opts=o)
+
+
+# ---------------------------------------------------------------- code files written by asl itself (golden corpus)
+
+CORPUS = None
+CORPUS_MAX = 16384
+
+
+def load_corpus():
+    """assemble the 201 golden programs once; [(name, raw code file, [(cpu, seg, gran, addr, units)])]"""
+    global CORPUS
+    if CORPUS is not None:
+        return CORPUS
+    from vf import corpus, asl
+    out = []
+    for n in corpus.names():
+        c = corpus.load(n)
+        files = {n + ".asm": c["src"]}
+        files.update(c["extra"])
+        r = asl.assemble(files, main=n + ".asm", args=list(c["flags"]) + ["-i", asl.INCLUDE_DIR])
+        if r.p is None or r.status != 0:
+            continue
+        try:
+            recs = pfile.parse(r.p, strict=True)
+        except pfile.FormatError:
+            continue
+        summ = [(x["cpu"], x["seg"], x["gran"], x["addr"], len(x["data"]) // x["gran"]) for x in recs
+                if x["kind"] == "data" and len(x["data"]) >= x["gran"]]
+        if summ:
+            out.append((n, r.p, summ))
+    CORPUS = out
+    return out
+
+
+def prepare(tier):
+    load_corpus()
+
+
+def common_opts(d, o, eff, gran, addrs, rel_start=None):
+    """options that do not depend on how the files were made; addrs = [(addr, units)] of the selected records"""
+    if addrs and opt(d, 0.4):
+        a0, n0 = d.choice(addrs)
+        a1, n1 = d.choice(addrs)
+        lo = a0 + d.int(-4, n0 - 1 if opt(d, 0.6) else 4)
+        hi = a1 + d.int(0, n1 + 4)
+        if rel_start is not None and opt(d, 0.5):
+            lo = rel_start
+        lo = max(0, min(lo, 0xffffffff))
+        hi = max(lo, min(hi, 0xffffffff))
+        mode = d.weighted([(3, "ee"), (2, "ae"), (2, "ea"), (1, "aa")])
+        o["r"] = [lo if mode[0] == "e" else None, hi if mode[1] == "e" else None]
     if opt(d, 0.25):
         o["M"] = d.int(1, 3)
     if opt(d, 0.25):
@@ -256,12 +315,6 @@ def strategy_(d, tier):
         o["e"] = d.weighted([(8, d.int(0, 0xffff)), (1, d.int(0x10000, 0xfffff)), (1, d.int(0x100000, 0xffffffff))])
     if "avrlen" not in o and opt(d, 0.05):
         o["avrlen"] = d.int(2, 3)
-    if opt(d, 0.25):
-        allc = sorted({r["cpu"] for f in files for r in f["recs"] if r["kind"] == "data"})
-        pick = d.subset(allc, 0.6) or [allc[0]]
-        if opt(d, 0.2):
-            pick.append(0x7f)
-        o["f"] = pick
     if eff == "C" and opt(d, 0.4):
         letters = [d.choice("dD")] + [d.choice(p) for p in ("sS", "lL", "eE") if opt(d, 0.75)]
         o["cformat"] = "".join(d.shuffle(letters))
@@ -269,11 +322,49 @@ def strategy_(d, tier):
     o["order"] = d.bool()
     o["single"] = opt(d, 0.3)
     o["lc"] = opt(d, 0.3)
-    return dict(files=files, opts=o)
+    if opt(d, 0.1):
+        o["env"] = True           # options through the environment variable P2HEXCMD
+    if opt(d, 0.1):
+        o["ext"] = d.choice([".hex", ".h", ".s19", ".mos", ".HEX"])
+
+
+@composite
+def corpus_case_(d, tier):
+    cands = [c for c in load_corpus() if len(c[1]) <= CORPUS_MAX]
+    name, raw, summ = d.choice(cands)
+    cpu = d.choice(sorted({x[0] for x in summ}))
+    sel = [x for x in summ if x[0] == cpu and x[1] == 1]
+    gran = sel[0][2] if sel else 1
+    o = {}
+    fam = family_of(cpu)
+    if fam is None or opt(d, 0.55):
+        o["F"] = d.choice([f for f in FORMATS if not (f == "Atmel" and gran == 4)])
+        eff = o["F"]
+    else:
+        eff = "Intel" if fam == "IntelAny" else fam
+    if len({x[0] for x in summ}) > 1 or opt(d, 0.2):
+        o["f"] = [cpu]
+    if gran == 2 and eff == "Intel" and opt(d, 0.5):
+        o["m"] = d.int(0, 3)
+    if eff == "Atmel" and opt(d, 0.5):
+        o["avrlen"] = d.int(2, 3)
+    lopt = d.weighted(LINE_CHOICES)
+    if lopt is not None:
+        o["l"] = max(lopt, gran)
+    if opt(d, 0.3):
+        o["R"] = d.weighted([(3, d.int(1, 0x200)), (2, 0x1000), (2, 0x10000 // gran), (1, 0x100000 // gran), (1, 0xff0000)])
+    if opt(d, 0.25):
+        o["a"] = True
+    off = None
+    if opt(d, 0.15):
+        off = d.weighted([(3, d.int(1, 0x200)), (1, 0x10000), (1, 0x8000)])
+    common_opts(d, o, eff, gran, [(x[3] + (off or 0), x[4]) for x in sel])
+    return dict(files=[dict(name="f0", offset=off, corpus=name, raw=engine.b64(raw))], opts=o)
 
 
 def strategy(tier):
-    return strategy_(tier)
+    from hypothesis import strategies as st
+    return st.integers(0, 99).flatmap(lambda k: corpus_case_(tier) if k < 12 else strategy_(tier))
 
 
 # ---------------------------------------------------------------- reference model
@@ -285,25 +376,49 @@ def leff_of(o, gran=1):
     return l - (l & 1) if l > 1 else l      # manual: odd values are rounded down to an even count
 
 
+def frecs(f):
+    """records of a case file: generated description, or the raw bytes of an assembled file read by vf.pfile"""
+    if "raw" in f:
+        out = []
+        for r in pfile.parse(engine.unb64(f["raw"]), strict=True):
+            if r["kind"] == "data":
+                out.append(dict(kind="data", cpu=r["cpu"], seg=r["seg"], gran=r["gran"], addr=r["addr"],
+                                n=len(r["data"]) // r["gran"], data=r["data"]))
+            elif r["kind"] == "entry":
+                out.append(r)
+        return out
+    return [dict(r, data=hexgen.payload(r)) if r["kind"] == "data" else r for r in f["recs"]]
+
+
+def file_image(f):
+    return engine.unb64(f["raw"]) if "raw" in f else hexgen.file_bytes(f)
+
+
 def model(case):
     """groups of bytes P2HEX has to write, in processing order"""
     o = case["opts"]
     seg = SEGID[o.get("segment", "CODE")]
     sel = []
     entry = o.get("e")
+    fentries = []
     for fi, f in enumerate(case["files"]):
         off = f["offset"] or 0
-        for r in f["recs"]:
+        for r in frecs(f):
             if r["kind"] == "entry":
-                if entry is None:
-                    entry = r["addr"]
+                fentries.append(r["addr"])
                 continue
             if r["seg"] != seg or ("f" in o and r["cpu"] not in o["f"]):
                 continue
             if r["n"] == 0:
                 continue
             a = r["addr"] + off
-            sel.append(dict(a=a, n=r["n"], g=r["gran"], cpu=r["cpu"], data=hexgen.payload(r), fi=fi))
+            sel.append(dict(a=a, n=r["n"], g=r["gran"], cpu=r["cpu"], data=r["data"], fi=fi))
+    if entry is None and fentries:
+        if len(set(fentries)) > 1:
+            return dict(status="discard", why="entry records of several files differ")
+        entry = fentries[0]
+    if len({s["g"] for s in sel}) > 1:
+        return dict(status="discard", why="mixed granularity")
     if any(s["a"] + s["n"] > 1 << 32 for s in sel):
         return dict(status="discard", why="input address wraps")
     start, stop = o.get("r", [None, None])
@@ -402,6 +517,55 @@ def fmt_ok_entry(entry, bits):
     return entry is not None and entry < (1 << bits)
 
 
+# ---------------------------------------------------------------- GNU objdump as a second, unrelated decoder
+
+OBJDUMP = "/usr/bin/objdump"
+_SEC_LINE = re.compile(r"^ ([0-9a-f]+) ((?:[0-9a-f]{2,8} ?){1,4})")
+
+
+def objdump_pairs(text, bfdname):
+    """(list of (byte address, byte) in file order, start address) as GNU BFD reads the file; None if unavailable"""
+    import os
+    if not os.path.exists(OBJDUMP):
+        return None
+    with run.Work("c06o") as d:
+        run.write_files(d, {"x.hex": text})
+        r = run.run([OBJDUMP, "-f", "-s", "-b", bfdname, "x.hex"], d, timeout=60, cpu=30)
+    if r.timed_out:
+        return None
+    if r.status != 0:
+        raise Violation("GNU objdump -b %s rejects the file: %s" % (bfdname, r.err.strip()[:200]))
+    pairs = []
+    start = None
+    for l in r.out.split("\n"):
+        if l.startswith("start address "):
+            start = int(l.split()[2], 16)
+        m = _SEC_LINE.match(l)
+        if m and l.startswith(" ") and not l.startswith("  "):
+            a = int(m.group(1), 16)
+            hx = l[len(m.group(1)) + 2:len(m.group(1)) + 2 + 35].replace(" ", "")
+            for i in range(0, len(hx), 2):
+                pairs.append((a + i // 2, int(hx[i:i + 2], 16)))
+    return pairs, start
+
+
+def second_witness(text, bfdname, dec_bytes, entry_expected, info):
+    """dec_bytes: [(byte address, byte)] from vf.hexfmt.  Both decoders must read the same bytes."""
+    res = objdump_pairs(text, bfdname)
+    if res is None:
+        return
+    pairs, start = res
+    info["cls"].append("objdump")
+    if sorted(pairs) != sorted(dec_bytes):
+        from collections import Counter
+        a, b = Counter(pairs), Counter(dec_bytes)
+        raise Violation("GNU objdump reads other bytes than vf.hexfmt: only objdump %s, only hexfmt %s"
+                        % (sorted((a - b).elements())[:3], sorted((b - a).elements())[:3]))
+    if entry_expected is not None and start != entry_expected:
+        raise Violation("GNU objdump reads start address %s, entry address is %X"
+                        % ("%X" % start if start is not None else None, entry_expected))
+
+
 # ---------------------------------------------------------------- per-format judges
 # each returns (line class info dict); raises Violation / hexfmt.HexError
 
@@ -481,6 +645,9 @@ def judge_moto(text, mdl, o, info):
     compare_pairs(dec, expected_pairs(groups, "unit"))
     info["lines"] = len(datal)
     info["types"] = sorted({r["t"] for r in datal})
+    if info["gran"] == 1 and datal:
+        second_witness(text, "srec", [(k[0], b) for k, b in dec],
+                       0 if entry is None else entry if entry < (1 << (8 * term["alen"])) else None, info)
 
 
 def final_span(groups, scale):
@@ -573,6 +740,11 @@ def judge_intel(text, mdl, o, info, variant):
         if warned:
             raise Violation("address overflow warning although the highest written address is %X" % top)
         compare_pairs(dec, exp)
+        if imode == 0 and dec:
+            want_start = None
+            if entry is not None and (variant == 32 or (variant == 16 and entry <= 0xfffff)):
+                want_start = entry
+            second_witness(text, "ihex", dec, want_start, info)
     else:
         info["cls"].append("overflow")
         if variant == 16 and top <= 0x10ffef:
@@ -680,7 +852,7 @@ def judge_atmel(text, mdl, o, info):
         raise Violation("memory map after loading differs (order of overlapping records)")
 
 
-def judge_c(text, mdl, o, info, name):
+def judge_c(text, mdl, o, info, name, target):
     cf = o.get("cformat", "dSEl")
     p = hexfmt.carray(text, name)
     groups = mdl["groups"]
@@ -745,14 +917,14 @@ def judge_c(text, mdl, o, info, name):
             raise Violation("len macro %X of a block of %d bytes" % (l, nb))
     if "overflow" in info["stderr"].lower():
         raise Violation("address overflow warning for the C format")
-    compile_c(text, name, cf, blocks, mdl, info)
+    compile_c(text, name, target, cf, blocks, mdl, info)
 
 
-def compile_c(text, name, cf, blocks, mdl, info):
+def compile_c(text, name, target, cf, blocks, mdl, info):
     """second, independent witness: the file must compile as ISO C and as C++ ('C(++) source files', manual) and the
     compiled descriptor table must hold the same blocks"""
     low = cf.lower()
-    body = ['#include <stdio.h>', '#include "%s.hex"' % name, 'int main(void) {', '  const %s_blk *b; unsigned long i;' % name,
+    body = ['#include <stdio.h>', '#include "%s"' % target, 'int main(void) {', '  const %s_blk *b; unsigned long i;' % name,
             '  for (b = %s_blks; b->data; b++) {' % name, '    printf("B");']
     for c, fld in (("s", "start"), ("l", "len"), ("e", "end")):
         if c in low:
@@ -763,7 +935,7 @@ def compile_c(text, name, cf, blocks, mdl, info):
              '#endif', '  (void)i; return 0;', '}', '']
     cxx = (len(mdl["groups"]) + len(text)) % 2 == 1
     with run.Work("c06c") as d:
-        run.write_files(d, {name + ".hex": text, "drv.c": "\n".join(body)})
+        run.write_files(d, {target: text, "drv.c": "\n".join(body)})
         if cxx:
             cmd = ["/usr/bin/g++", "-x", "c++", "-std=c++11", "-pedantic-errors", "-Wno-unused", "-o", "drv", "drv.c"]
         else:
@@ -845,16 +1017,22 @@ def argv_of(case):
     if "cformat" in o:
         optv += ["-cformat", o["cformat"]]
     files = case["files"]
-    single = o.get("single") and len(files) == 1 and not files[0]["offset"]
-    if single:
-        srcs, target = [files[0]["name"]], files[0]["name"]
+    single = o.get("single") and len(files) == 1
+    if single:      # "P2HEX <name>": <name>.p -> <name>.hex
+        srcs = [files[0]["name"] + ("(%s)" % n(files[0]["offset"], 5) if files[0]["offset"] else "")]
+        target, cname = files[0]["name"] + ".hex", files[0]["name"]
     else:
+        ext = o.get("ext", "")
         srcs = [f["name"] + (".p" if i % 2 else "") + ("(%s)" % n(f["offset"], 5) if f["offset"] else "")
-                for i, f in enumerate(files)] + ["out"]
-        target = "out"
+                for i, f in enumerate(files)] + ["out" + ext]
+        target, cname = "out" + (ext or ".hex"), "out"
+    env = None
+    if o.get("env") and optv:
+        env = {"P2HEXCMD": " ".join(optv)}
+        optv = []
     if o.get("order"):
-        return ["p2hex"] + optv + srcs, target
-    return ["p2hex"] + srcs + optv, target
+        return ["p2hex"] + optv + srcs, target, cname, env
+    return ["p2hex"] + srcs + optv, target, cname, env
 
 
 # ---------------------------------------------------------------- execution
@@ -879,19 +1057,21 @@ def boundary_classes(groups, scale_bytes):
 def execute(case):
     o = case["opts"]
     mdl = model(case)
-    grans = sorted({r["gran"] for f in case["files"] for r in f["recs"] if r["kind"] == "data"})
-    gran = max(grans, default=1)
-    classes = ["F:" + o.get("F", "default"), "gran%d" % gran, "files%d" % len(case["files"])]
+    classes = ["F:" + o.get("F", "default"), "files%d" % len(case["files"])]
+    if any("raw" in f for f in case["files"]):
+        classes.append("corpus")
     if mdl["status"] == "discard":
         return engine.discarded(mdl["why"].replace(" ", "_"), classes)
-    argv, target = argv_of(case)
+    gran = max([g["g"] for g in mdl.get("groups", [])], default=1)
+    classes.append("gran%d" % gran)
+    argv, target, cname, env = argv_of(case)
     with run.Work("c06") as d:
-        run.write_files(d, {f["name"] + ".p": hexgen.file_bytes(f) for f in case["files"]})
-        r = run.run(argv, d)
+        run.write_files(d, {f["name"] + ".p": file_image(f) for f in case["files"]})
+        r = run.run(argv, d, env=env)
         if r.timed_out:
             return engine.inconclusive("timeout", classes)
-        text = run.read(d, target + ".hex")
-    detail = dict(argv=argv, status=r.status, signal=r.signal, stderr=r.err[-300:], stdout=r.out[-400:],
+        text = run.read(d, target)
+    detail = dict(argv=argv, env=env, status=r.status, signal=r.signal, stderr=r.err[-300:], stdout=r.out[-400:],
                   hex=(text or b"")[:1500].decode("latin-1"))
     if r.signal:
         return engine.bad("p2hex killed by signal %d" % r.signal, None, classes, **detail)
@@ -918,7 +1098,7 @@ def execute(case):
         nt.append("multiline")
     if mdl["clipped"]:
         nt.append("clip")
-    optnames = sorted(k for k in o if k not in ("sty", "order", "single", "lc", "F") and o[k] not in (None, False))
+    optnames = sorted(k for k in o if k not in ("sty", "order", "single", "lc", "F") and o[k] is not None and o[k] is not False)
     nt += ["opt:" + k for k in optnames]
     if len(case["files"]) > 1:
         nt.append("multi")
@@ -955,7 +1135,7 @@ def execute(case):
         elif eff == "Atmel":
             judge_atmel(text, mdl, o, info)
         elif eff == "C":
-            judge_c(text, mdl, o, info, target)
+            judge_c(text, mdl, o, info, cname, target)
         # size report
         for fi, f in enumerate(case["files"]):
             mm = re.search(re.escape(f["name"] + ".p") + r"==>>\S+\s+\((.*?)\)", r.out)
@@ -979,10 +1159,23 @@ def execute(case):
     return engine.ok(key, classes)
 
 
+def coverage_extra(tier, classes):
+    tot = max(1, sum(v for k, v in classes.items() if k.startswith("eff:")))
+    return dict(witness_objdump_runs=classes.get("objdump", 0),
+                witness_compiler_runs=classes.get("compiled-c", 0) + classes.get("compiled-c++", 0),
+                corpus_cases=classes.get("corpus", 0),
+                judged_cases=tot,
+                fraction_multiline=round(classes.get("multiline", 0) / tot, 3),
+                fraction_boundary=round(sum(classes.get(k, 0) for k in ("cross64K", "cross1M", "cross16M", "crossBank",
+                                                                         "cross2G")) / tot, 3),
+                fraction_overflow_class=round(classes.get("overflow", 0) / tot, 3))
+
+
 def show(case):
-    return dict(argv=argv_of(case)[0],
-                files=[dict(name=f["name"], recs=[(r["kind"], hex(r.get("cpu", 0)), r.get("seg"), r.get("gran"),
-                                                   hex(r["addr"]), r.get("n")) for r in f["recs"]])
+    return dict(argv=argv_of(case)[0], env=argv_of(case)[3],
+                files=[dict(name=f["name"], corpus=f.get("corpus"),
+                            recs=[(r["kind"], hex(r.get("cpu", 0)), r.get("seg"), r.get("gran"), hex(r["addr"]), r.get("n"))
+                                  for r in frecs(f)][:8])
                        for f in case["files"]])
 
 
@@ -1006,6 +1199,10 @@ def fixed_cases(tier):
     # default format per family
     for cpu in (0x01, 0x61, 0x63, 0x68, 0x52, 0x11, 0x19, 0x51, 0x31, 0x41, 0x42, 0x13):
         out.append(_case([_rec(cpu, 0x200, 40), dict(kind="entry", addr=0x234)]))
+    # ... and exhaustively: every CPU id of the default-format tables, in its documented granularity
+    for g, ids in ((1, ANY_G[1]), (2, ANY_G[2]), (4, ANY_G[4])):
+        for cpu in ids:
+            out.append(_case([_rec(cpu, 0x40, 21, gran=g, form="short" if g == pfile.implied_gran(cpu, 1) else "long")]))
     out.append(_case([_rec(0x3b, 0x20, 9, gran=2)]))
     out.append(_case([_rec(0x70, 0x20, 9, gran=2)]))
     out.append(_case([_rec(0x76, 0x20, 9, gran=4)]))
@@ -1054,6 +1251,25 @@ def fixed_cases(tier):
         out.append(_case([_rec(0x51, 0x1000, 40)], F=f, R=0x100))
         out.append(_case([_rec(0x51, 0x1000, 40), _rec(0x51, 0x1100, 10)], F=f, a=True))
         out.append(_case([_rec(0x51, 0x1000, 40), _rec(0x51, 0x1100, 10)], F=f, r=[0x1010, 0x1104]))
+    # every golden program as assembled by asl: default format of its CPU (or Intel32 when the family is not in
+    # the table), and one explicit format in rotation; the big ones only in the thorough tier
+    for k, (name, raw, summ) in enumerate(load_corpus()):
+        if len(raw) > CORPUS_MAX and tier != "thorough":
+            continue
+        cpus = sorted({x[0] for x in summ})
+        cpu = cpus[0]
+        o = dict(f=[cpu]) if len(cpus) > 1 else {}
+        f = dict(name="f0", offset=None, corpus=name, raw=engine.b64(raw))
+        gran = [x[2] for x in summ if x[0] == cpu][0]
+        if family_of(cpu) is None:
+            o["F"] = "Intel32"
+        out.append(dict(files=[f], opts=dict(o, sty=["0x"] * 6, order=False)))
+        fmts = [x for x in FORMATS if not (x == "Atmel" and gran == 4)]
+        for j in range(len(fmts) if tier == "thorough" else 1):
+            o2 = dict(o, F=fmts[(k + j) % len(fmts)], sty=["dollar"] * 6, order=True)
+            if (k + j) % 3 == 0:
+                o2["l"] = [32, 254, 2 if gran <= 2 else 4][(k + j) // 3 % 3]
+            out.append(dict(files=[f], opts=o2))
     return out
 
 
